@@ -91,6 +91,7 @@ struct World {
     paid: usize,
     seed: [u8; 16],
     cut_sel: usize,
+    restarts: usize,
 }
 
 /// Which prefix of the ciphertext survives a torn write (selected per run).
@@ -157,7 +158,7 @@ impl World {
         };
         let mut w = World {
             cfg, me, dir, store, node, _net: net, kp, cmd_rx, cmd_tx, ev_tx, _ev_rx: ev_rx, keys, dists, filler_keys,
-            values: HashMap::new(), parked: vec![], notes: vec![], pending_w: BTreeMap::new(), paid: 0, seed, cut_sel: 0,
+            values: HashMap::new(), parked: vec![], notes: vec![], pending_w: BTreeMap::new(), paid: 0, seed, cut_sel: 0, restarts: 0,
         };
         w.settle_constructor_flush(gates).await;
         if w.cfg.filler > 0 {
@@ -565,7 +566,11 @@ async fn step(w: &mut World, gates: &mut mpsc::UnboundedReceiver<GateEvent>, t: 
                     _ => { res = json!("NoSuchTask"); extra = json!({"t": {"kind":"W","k":tk,"v":0}}); }
                 }
             }
-            if res == json!("Ok") {
+            // every other restart is a restart twice in a row (the second one with no background work left: for the
+            // model the same as one restart)
+            w.restarts += 1;
+            let rounds = if res == json!("Ok") { if w.restarts % 2 == 0 { 2 } else { 1 } } else { 0 };
+            for _round in 0..rounds {
                 for p in w.parked.drain(..) { drop(p.release); }
                 w.notes.clear();
                 w.pending_w.clear();
@@ -587,7 +592,7 @@ async fn step(w: &mut World, gates: &mut mpsc::UnboundedReceiver<GateEvent>, t: 
                 w.paid = w.st().verif_received_payment_count();
                 // bodies of the crashed process are parked for ever; their late gate events are ignored
                 w.settle_constructor_flush(gates).await;
-                extra = json!({"cut": cut_info});
+                extra = json!({"cut": cut_info, "restarted": rounds});
             }
         }
         other => panic!("unknown step {other}"),
